@@ -374,6 +374,8 @@ def run(ctx):
         v13 = v.split("|")[1]
         if tr[-1].get("hang"):
             v13 = v13 or "C13.Hang"
+        if not v13 and tr[-1].get("housekeeping_failed"):
+            v13 = "C13.HousekeepingEnded"       # the periodic clean-up raised: in a running daemon its thread is gone from then on
         if m.get("handover") and not v13 and not (tr[-1]["witness_ok"] and tr[-1]["fresh_ok"]):
             v13 = "C13.SlotNotReleased"     # the connection that was handed to the worker that was just leaving was never served
         if v13:
@@ -418,10 +420,15 @@ def housekeeping_race(ctx, rng):
                 util.detach_iterator(it)
                 sc.sleep(2.0)                 # the stream is past its lifetime now; nobody has removed it yet
                 done = [0]
+                kerr = out.setdefault("kerr", [])
 
                 def keeper():
                     try:
                         lab.daemon._housekeeping()
+                    except (S.Hang, S.SchedAbort):
+                        raise
+                    except Exception as x:
+                        kerr.append("%s: %s" % (type(x).__name__, x))     # (this ends the housekeeper thread of a real daemon for good)
                     finally:
                         done[0] += 1
                 sc.spawn(sc.fresh_name("housekeeper"), keeper)
@@ -437,7 +444,8 @@ def housekeeping_race(ctx, rng):
                 tr.append({"e": "Snap", "c": 1, "srvclosed": bool(srv.closed), "first": "ok", "reason": False, "mustreason": False,
                            "checkfirst": False, "alive_sessions": 0})
             tr.append({"e": "End", "slots": lab.server_connections() if not hang else 0, "open": 0, "loop_alive": lab.driver.crashed is None,
-                       "witness_ok": True, "fresh_ok": True, "hang": hang, "streams_left": len(lab.daemon.streaming_responses)})
+                       "witness_ok": True, "fresh_ok": True, "hang": hang, "streams_left": len(lab.daemon.streaming_responses),
+                       "housekeeping_failed": (out.get("kerr") or [""])[0]})
             out["tr"] = tr
             lab.config.ITER_STREAM_LIFETIME = 0.0
             if not hang:
